@@ -26,6 +26,7 @@ Clauses of the property  ->  theorems
   unsupported shapes / frames are skipped ....... unsupported_skipped_independent, unsupported_frame_scope
 -/
 import RegionsVerif.Spec.Ds9
+import RegionsVerif.Impl.Ds9ReadQuirks
 import Mathlib.Tactic.Ring
 
 namespace RegionsVerif.Props.C10
@@ -1220,6 +1221,106 @@ example :
     interp (lex "IMAGE;-Box 10.5 20 4 3 30 # TEXT={007}") =
       [⟨⟨.rectangle, [(.pix (19/2), .pix 19)], [.pix 4, .pix 3], some (.deg 30)⟩, .image, false,
           [⟨"text", .brace, "007"⟩]⟩] := by
+  decide +kernel
+
+/-! ### the current reader versus the composite conventions (open findings F105, F106)
+
+`Impl.Ds9Read.runQ q` is the reference with the reader's two known deviations switched on by `q`.
+The full clause "the reader's composite handling IS the reference's" is refuted for each
+deviation by a concrete file, and proved for every file outside the deviations' input classes
+(`quirkFree`, decidable).  When the fixes are committed, `Impl.Ds9Read.currentCode` is set to
+`Quirks.none`, for which the full clause holds (`runQ_none`). -/
+
+open RegionsVerif.Impl.Ds9Read
+
+theorem runQ_none (st : State) (l : List Stmt) : runQ Quirks.none st l = run st l := by
+  induction l generalizing st with
+  | nil => rfl
+  | cons s r ih =>
+    have : nextQ Quirks.none st s = next st s := by cases s <;> simp [nextQ, next, Quirks.none]
+    simp only [runQ, run, this, ih]
+
+/-- full clause, F105: with the header values lower-cased the reader still reads every file as the
+conventions say. -/
+def composite_values_full : Prop := ∀ toks, interpQ ⟨true, false⟩ toks = interp toks
+
+/-- refuted: `image; # composite(1,2,0) || composite=1 color=Red; point(1,2)`. -/
+theorem composite_values_full_refuted : ¬ composite_values_full := by
+  intro h
+  have := h [.word (.frame .image), .nl, .hash, .word .composite, .num (.dec 1 .none), .num (.dec 2 .none),
+             .num (.dec 0 .none), .bars, .kv ⟨"composite", .bare, "1"⟩, .kv ⟨"color", .bare, "Red"⟩, .nl,
+             .word (.shape .point), .num (.dec 1 .none), .num (.dec 2 .none)]
+  revert this
+  decide +kernel
+
+/-- full clause, F106: with an unsupported last member not ending the composite the reader still
+reads every file as the conventions say. -/
+def composite_last_member_full : Prop := ∀ toks, interpQ ⟨false, true⟩ toks = interp toks
+
+/-- refuted: `image; composite(1,2,0) || composite=1 color=red; point(1,2) ||; ruler(…); point(3,4)`:
+the last point is NOT a member, the reader gives it the composite's colour. -/
+theorem composite_last_member_full_refuted : ¬ composite_last_member_full := by
+  intro h
+  have := h [.word (.frame .image), .nl, .word .composite, .num (.dec 1 .none), .num (.dec 2 .none),
+             .num (.dec 0 .none), .bars, .kv ⟨"composite", .bare, "1"⟩, .kv ⟨"color", .bare, "red"⟩, .nl,
+             .word (.shape .point), .num (.dec 1 .none), .num (.dec 2 .none), .bars, .nl,
+             .word .badShape, .num (.dec 1 .none), .nl,
+             .word (.shape .point), .num (.dec 3 .none), .num (.dec 4 .none)]
+  revert this
+  decide +kernel
+
+/-- **composite_partial.** Outside the two input classes — whatever deviations are switched on —
+the reader's composite handling is the reference's, for files of any length. -/
+theorem composite_partial (q : Quirks) (st : State) (l : List Stmt) (h : quirkFree q st l = true) :
+    runQ q st l = run st l := by
+  induction l generalizing st with
+  | nil => rfl
+  | cons s r ih =>
+    simp only [quirkFree, Bool.and_eq_true] at h
+    obtain ⟨hs, hr⟩ := h
+    have hn : nextQ q st s = next st s := by
+      cases s with
+      | composite kvs =>
+        simp only [Bool.and_eq_true, Bool.or_eq_true, Bool.not_eq_true', decide_eq_true_eq] at hs
+        obtain ⟨h1, h2⟩ := hs
+        have hskip : (q.badLastMemberKeepsComposite && st.frame.isNone) = false := by
+          rcases h2 with h2 | h2
+          · simp [h2]
+          · cases hf : st.frame <;> simp_all
+        simp only [nextQ, next, hskip, Bool.false_eq_true, if_false]
+        rcases h1 with hq | hk
+        · simp [hq]
+        · split
+          · rw [hk]
+          · rfl
+      | badShape =>
+        simp only [Bool.or_eq_true, Bool.not_eq_true', decide_eq_true_eq] at hs
+        rcases hs with hq | hc
+        · simp [nextQ, next, hq]
+        · simp only [nextQ, next]
+          split
+          · exact (comp_reset_noop st hc).symm
+          · rfl
+      | _ => rfl
+    simp only [runQ, run, hn, ih _ hr]
+
+theorem composite_partial_interp (q : Quirks) (toks : List Tok)
+    (h : quirkFree q init (stmtsOf toks) = true) : interpQ q toks = interp toks :=
+  composite_partial q init _ h
+
+/-- the predicate is satisfiable by files that do contain composites and unsupported shapes:
+lower-case header values, an unsupported shape as a MIDDLE member and another one outside. -/
+example :
+    quirkFree Quirks.b51f440 init
+      [.frame .image, .composite [⟨"composite", .bare, "1"⟩, ⟨"color", .bare, "red"⟩, ⟨"text", .brace, "a b"⟩],
+       .member .none .point [.dec 1 .none, .dec 2 .none] [⟨"text", .brace, "Own Text"⟩], .badMember,
+       .region .minus .point [.dec 3 .none, .dec 4 .none] [], .badShape,
+       .region .none .point [.dec 5 .none, .dec 6 .none] []] = true ∧
+    quirkFree Quirks.b51f440 init
+      [.frame .image, .composite [⟨"color", .bare, "Red"⟩], .region .none .point [.dec 1 .none, .dec 2 .none] []] = false ∧
+    quirkFree Quirks.b51f440 init
+      [.frame .image, .composite [⟨"color", .bare, "red"⟩], .member .none .point [.dec 1 .none, .dec 2 .none] [],
+       .badShape] = false := by
   decide +kernel
 
 end RegionsVerif.Props.C10
